@@ -331,7 +331,8 @@ class Gen(object):
             if k == "connack":
                 rcv = 0
                 if fam == "handshake":
-                    rcv = _w(rng, [(0, 5), (rng.randint(1, 5), 3), (rng.randint(6, 255), 3)])
+                    # all 256 return codes are cycled through by the seed
+                    rcv = _w(rng, [(0, 4), (rng.randint(1, 5), 2), (rng.randint(6, 255), 2), (cfg.get("seed", 0) % 256, 4)])
                 elif rng.random() < 0.05:
                     rcv = rng.randint(1, 255)
                 stp = {"op": "brk.connack", "addr": addr, "rc": rcv, "sp": rng.random() < 0.4}
